@@ -57,6 +57,7 @@ NONMUT = ["add", "sub", "neg", "multiply", "bandpass", "sel", "isel", "getitem",
           "where", "drop_invalid", "copy", "deepcopy", "to_1d", "to_2d", "interp_time", "interp_freq", "interp_freq_nearest",
           "interp_freq_own_grid", "interp_time_own_grid", "cdf", "extrapolate_tail", "bulk"]
 INPLACE = ["fillna", "multiply_inplace", "setitem", "raw_write_deepcopy"]
+VIEW_RETURNING = ["sel", "isel", "getitem", "flatten", "copy"]
 
 
 @st.composite
@@ -80,7 +81,12 @@ def seq_case(draw):
     ops = []
     nops = draw(st.integers(1, 6))
     for j in range(nops):
-        kind = draw(st.sampled_from(NONMUT)) if j == 0 and nops > 1 else draw(st.sampled_from(NONMUT + INPLACE * 4))
+        if j == 0 and nops > 1:
+            # half of the histories start with an operation that may legitimately return views of its operand
+            # (selection, indexing, flattening, shallow copy): the later in-place operations then act on shared buffers
+            kind = draw(st.sampled_from(VIEW_RETURNING if draw(st.booleans()) else NONMUT))
+        else:
+            kind = draw(st.sampled_from(NONMUT + INPLACE * 4 + ["multiply_inplace"] * 4))
         ops.append({"op": kind, "a": draw(st.integers(0, 9)), "b": draw(st.integers(0, 9)),
                     "x": draw(fl(0.1, 3.0)), "i": draw(st.integers(0, 3))})
     return {"base": base, "seeds": seeds, "ops": ops}
